@@ -31,6 +31,7 @@ type Prog struct {
 	Lemmas    []*LemmaSpec
 	Ghosts    map[string]string      // ghost component name -> SMT sort text
 	GhostPkg  map[string]string      // ghost component name -> declaring package path
+	TypeAlias map[string]string      // spec type name -> Go type expression (map[K]V, []T, *T over named types)
 	Externs   map[string][]*Contract // full callee name -> trusted contracts for functions outside the repository
 	constGlob map[*ssa.Global]bool
 }
@@ -114,7 +115,7 @@ func loadProgram(repo string, pkgPatterns []string) (*Prog, error) {
 	prog.Build()
 	P := &Prog{Repo: repo, Fset: fset, SSA: prog, Pkgs: map[string]*ssa.Package{}, TPkgs: map[string]*packages.Package{},
 		Contracts: map[string]*Contract{}, SpecFns: map[string]*SpecFn{}, constGlob: map[*ssa.Global]bool{},
-		Ghosts: map[string]string{}, GhostPkg: map[string]string{}, Externs: map[string][]*Contract{}}
+		Ghosts: map[string]string{}, GhostPkg: map[string]string{}, Externs: map[string][]*Contract{}, TypeAlias: map[string]string{}}
 	for _, p := range prog.AllPackages() {
 		P.Pkgs[p.Pkg.Path()] = p
 	}
@@ -151,6 +152,11 @@ func (P *Prog) loadContracts() error {
 			P.SpecFns[sf.Name] = sf
 		}
 		P.Lemmas = append(P.Lemmas, cf.Lemmas...)
+		for _, td := range cf.Types {
+			if fs := strings.SplitN(td, "=", 2); len(fs) == 2 {
+				P.TypeAlias[strings.TrimSpace(fs[0])] = strings.TrimSpace(fs[1])
+			}
+		}
 		for _, g := range cf.Ghosts {
 			fs := strings.SplitN(strings.TrimSpace(g), " ", 2)
 			if len(fs) == 2 {
